@@ -58,6 +58,44 @@ def sanitises(fi, var: str) -> str | None:
     dotdot = False
     absolute = False
     resolved = False
+    par = parmap(fi)
+    params = {a.arg for a in fi.node.args.args + fi.node.args.kwonlyargs} - aliases - {"self", "cls"}
+
+    def lift(c):
+        """look through enclosing Ifs that test only other parameters (`if not reference:`): that mode switch is accepted,
+        the other mode is reasoned about separately"""
+        while True:
+            up = par.get(c)
+            if isinstance(up, ast.If) and not (names_in(up.test) - params) and c in up.body:
+                c = up
+                continue
+            return c
+
+    def same_list_before(a, b) -> bool:
+        up = par.get(a)
+        for fld in ("body", "orelse", "finalbody"):
+            lst = getattr(up, fld, None)
+            if isinstance(lst, list) and a in lst and b in lst:
+                return lst.index(a) < lst.index(b)
+        return False
+
+    def dominating(cand, guard) -> bool:
+        """cand is an earlier sibling of guard or of one of guard's ancestors (so it runs before guard on every path)"""
+        c = lift(cand)
+        g = guard
+        while g is not None:
+            if same_list_before(c, g):
+                return True
+            g = par.get(g)
+        return False
+
+    normalisers = [
+        n for n in body_walk(fi.node)
+        if isinstance(n, ast.Assign) and isinstance(strip_await(n.value), ast.Call) and call_name(strip_await(n.value)) == "normpath"
+        and names_in(n.value) & aliases and any(isinstance(t, ast.Name) and t.id in aliases for t in n.targets)
+    ]
+    strips = []
+    guards = []
     for n in body_walk(fi.node):
         if isinstance(n, ast.If) and any(isinstance(x, ast.Raise) for s in n.body for x in walk_no_nested(s)):
             t = n.test
@@ -66,7 +104,11 @@ def sanitises(fi, var: str) -> str | None:
             consts = [c.value for c in ast.walk(t) if isinstance(c, ast.Constant) and isinstance(c.value, str)]
             txt = norm(t, 400)
             if any(".." in c for c in consts) or "os.pardir" in txt or "pardir" in txt:
-                dotdot = True
+                componentwise = ".split(" in txt or ".parts" in txt
+                # a prefix test (== '..' / startswith('../')) only confines a name that was normalised before, on every path
+                if componentwise or any(dominating(a, n) for a in normalisers):
+                    dotdot = True
+                    guards.append(n)
             if "isabs(" in txt or "is_absolute(" in txt or any(c.startswith("/") and "startswith" in txt for c in consts) or ("startswith('/')" in txt):
                 absolute = True
             if "is_relative_to(" in txt or "commonpath(" in txt:
@@ -75,9 +117,13 @@ def sanitises(fi, var: str) -> str | None:
             v = strip_await(n.value)
             if isinstance(v, ast.Call) and call_name(v) == "lstrip" and v.args and isinstance(v.args[0], ast.Constant) and v.args[0].value == "/":
                 if any(isinstance(t, ast.Name) and t.id in aliases for t in n.targets):
-                    absolute = True
+                    strips.append(n)
         if isinstance(n, ast.While) and "startswith('/')" in norm(n.test) and names_in(n.test) & aliases:
             absolute = True
+    # the leading-'/' strip must run before the '..' guard on every path (else '/../x' passes the guard and is stripped after)
+    # (after normpath an absolute name has no '..' left, so stripping later is fine too)
+    if strips and guards and (any(dominating(s_, g) for s_ in strips for g in guards) or any(same_list_before(lift(a), lift(s_)) for a in normalisers for s_ in strips)):
+        absolute = True
     if resolved:
         return "resolves against the root and tests is_relative_to/commonpath"
     if dotdot and absolute:
